@@ -219,6 +219,8 @@ VARIANTS = [
     V("count mask not switched on for product grids of several groupers", ("C05", "C07"), "R-ABSENTMASK", "core.py", 'fill_value is not None and (provided_expected or nby > 1))', 'fill_value is not None and provided_expected)', must_mention="several groupers"),
     V("twin: product-grid condition through the number of label arrays", ("C05", "C07"), "", "core.py", 'fill_value is not None and (provided_expected or nby > 1))', 'fill_value is not None and (len(bys) > 1 or provided_expected))', expect="silent"),
     V("integer fills widen by weak-scalar promotion only", ("C05", "C11"), "R-FILLWIDEN", "xrdtypes.py", '        if (\n            isinstance(fill_value, (int, np.integer))\n            and not isinstance(fill_value, (bool, np.bool_))\n            and dtype.kind in "iu"\n            and not (np.iinfo(dtype).min <= fill_value <= np.iinfo(dtype).max)\n        ):\n            # a Python integer is a weak scalar: it never widens an integer dtype, however large it is\n            dtype = np.result_type(dtype, np.min_scalar_type(fill_value))\n        else:\n            dtype = np.result_type(dtype, fill_value)\n', '        dtype = np.result_type(dtype, fill_value)\n', must_mention="weak"),
+    V("finalize_kwargs stored by reference in the blueprint", ("C14",), "R-CAPTURE", "aggregations.py", '        agg.finalize_kwargs = copy.deepcopy(finalize_kwargs)', '        agg.finalize_kwargs = finalize_kwargs', must_mention="caller"),
+    V("twin: finalize_kwargs copied with a dict display", ("C14",), "", "aggregations.py", '        agg.finalize_kwargs = copy.deepcopy(finalize_kwargs)', '        agg.finalize_kwargs = {**finalize_kwargs}', expect="silent"),
     V("dtype promotion memoised with an untyped key", ("C14",), "R-MEMO", "xrdtypes.py", '        dtype = np.result_type(dtype, fill_value)\n    return dtype\n',
       '        dtype = _promote_for_fill_value(dtype, fill_value)\n    return dtype\n\n\n@functools.lru_cache\ndef _promote_for_fill_value(dtype: np.dtype, fill_value) -> np.dtype:\n    return np.result_type(dtype, fill_value)\n', must_mention="typed"),
     V("twin: dtype promotion memoised with typed=True", ("C14",), "", "xrdtypes.py", '        dtype = np.result_type(dtype, fill_value)\n    return dtype\n',
